@@ -169,6 +169,12 @@ def run_linear(cell, rec, seed):
                 rec.true("callable returned when y is omitted", callable(fn), detail=inf,
                          mech=f"log-conditional-y-not-callable:{ck}")
                 if callable(fn):
+                    # the returned function belongs to the p(x) it was made for: evaluated only
+                    # after another function was made from the same conditional with another p(x)
+                    with gen.calm():
+                        p_other, _ = build.mk_pdf(rng, Rp, Dx, kappa=10.0)
+                    lc.call(rec, "integrate_log_conditional_y()",
+                            lambda: c.integrate_log_conditional_y(p_other, **kw), inf)
                     got2 = lc.call(rec, "callable(y)", lambda: fn(J(y)), inf)
                     if got2 is not None:
                         rec.close("E_p(x) ln p(y|x) callable", got2, ref, ns=ns, detail=inf,
